@@ -16,6 +16,7 @@ import random
 import sys
 import time
 import typing
+import weakref
 
 from forml import flow
 from forml.flow._graph import atomic, port, span
@@ -26,6 +27,7 @@ from workloads import graphs
 
 PROP = 'C11'
 MAXNODES = 9
+GC_FILES = ('forml/flow/_graph/port.py', 'forml/flow/_graph/atomic.py')
 T, L = 'T', 'L'
 
 
@@ -136,28 +138,49 @@ class Model:
     def add_edge(self, p: int, b: int, d: int, q) -> None:
         self.raw.append((p, b, d, q))
 
+    # -- lifetimes ------------------------------------------------------------------------------
+    def dropped(self, n: int) -> bool:
+        return bool(self.nodes[n].get('dropped'))
+
+    def kill(self, n: int) -> None:
+        """The (dropped) node is gone: its subscriptions died with it, the ports they held are free again."""
+        self.raw[:] = [e for e in self.raw if e[0] != n and e[2] != n]
+        del self.nodes[n]
+
     # -- expected observation -------------------------------------------------------------------
-    def expected(self) -> dict:
+    def expected(self, full: bool = False) -> dict:
+        """What the harness can see: nodes it still holds; a node it let go of (but which is kept alive by others)
+        shows up in their subscriptions as None. `full`: the model's own view (dropped nodes included)."""
         eff = self.effective()
         out = {}
+
+        def vis(x):
+            return x if full or not self.dropped(x) else None
+
+        def order(pairs):
+            return sorted(pairs, key=lambda x: (-1 if x[0] is None else x[0], *x[1:]))
+
         for n, meta in self.nodes.items():
+            if not full and meta.get('dropped'):
+                continue
             if meta['kind'] == 'worker':
-                outs = [sorted({(e[2], pname(e[3])) for e in eff if e[0] == n and e[1] == b})
+                outs = [order({(vis(e[2]), pname(e[3])) for e in eff if e[0] == n and e[1] == b})
                         for b in range(meta['szout'])]
                 out[n] = {'kind': 'worker', 'in': sorted(pname(q) for q in self.taken(n)), 'trained': self.trained(n),
                           'out': outs, 'group': sorted(m for m, mm in self.nodes.items()
-                                                       if mm['kind'] == 'worker' and mm['group'] == meta['group'])}
+                                                       if mm['kind'] == 'worker' and mm['group'] == meta['group']
+                                                       and (full or not mm.get('dropped')))}
             else:
-                outs = [sorted({(t[0], pname(t[1])) for p, bb, d, q in self.raw if p == n and bb == b
-                                for t in self.sinks(d, q)}) for b in range(meta['szout'])]
-                reg = sorted((p, b, q[1]) for p, b, d, q in self.raw if d == n)
+                outs = [order({(vis(t[0]), pname(t[1])) for p, bb, d, q in self.raw if p == n and bb == b
+                               for t in self.sinks(d, q)}) for b in range(meta['szout'])]
+                reg = order((vis(p), b, q[1]) for p, b, d, q in self.raw if d == n)
                 out[n] = {'kind': 'future', 'out': outs, 'reg': reg}
         return out
 
     # -- traversal model (Segment tracing) ---------------------------------------------------------
     def subs(self, n: int) -> list[int]:
         """Nodes a traversal steps to from n (raw output subscriptions as the real objects hold them)."""
-        exp = self.expected()[n]
+        exp = self.expected(full=True)[n]
         seen, out = set(), []
         for portsubs in exp['out']:
             for d, _ in portsubs:
@@ -173,7 +196,7 @@ class Model:
             return True
         if self.nodes[x]['kind'] == self.nodes[y]['kind']:
             return False
-        ex, ey = self.expected()[x]['out'], self.expected()[y]['out']
+        ex, ey = self.expected(full=True)[x]['out'], self.expected(full=True)[y]['out']
         if len(ex) != len(ey) or not ex:
             return False
         if all(a == b for a, b in zip(ex, ey)):
@@ -298,13 +321,14 @@ class Model:
 # workload generation
 # ------------------------------------------------------------------------------------------------
 RETRIES = True
+LIFETIMES = True
 
 
 def gen_ops(rng: random.Random, nops: int) -> list[dict]:
     """Ops are total: indices are taken modulo what exists at execution time."""
     ops = []
     weights = {'worker': 5, 'future': 2, 'fork': 2, 'connect': 14, 'train': 5, 'segment': 3, 'copy': 1.5,
-               'compose': 1.5, 'keep': 2, 'release': 2, 'collect': 1.5}
+               'compose': 1.5, 'keep': 2, 'release': 2, 'collect': 1.5, 'drop': 1.5 if LIFETIMES else 0}
     kinds, wts = zip(*weights.items())
     if rng.random() < 0.08:  # swarm: a cycle that does not contain the traced head, each of its nodes also fed by the head
         ops += [{'op': 'worker', 'stateful': False, 'szin': 1, 'szout': 2},
@@ -318,6 +342,16 @@ def gen_ops(rng: random.Random, nops: int) -> list[dict]:
         if rng.random() < 0.7:
             ops.append({'op': 'connect', 'pub': rng.choice([1, 2]), 'b': 0, 'sub': 3, 'a': 0, 'via': 'subscribe'})
         ops.append({'op': 'segment', 'head': 0, 'tail': None})
+    if LIFETIMES and rng.random() < 0.06:
+        # swarm: a subscriber whose only publisher the harness lets go of; the collector then runs somewhere inside the
+        # next subscription of that subscriber
+        ops += [{'op': 'worker', 'stateful': False, 'szin': 1, 'szout': 1},
+                {'op': 'worker', 'stateful': rng.random() < 0.3, 'szin': 2, 'szout': 1},
+                {'op': 'worker', 'stateful': False, 'szin': 1, 'szout': 1},
+                {'op': 'connect', 'pub': 0, 'b': 0, 'sub': 1, 'a': 0, 'via': rng.choice(['subscribe', 'publish'])},
+                {'op': 'drop', 'node': 0},
+                {'op': 'connect', 'pub': 2, 'b': 0, 'sub': 1, 'a': 1, 'via': rng.choice(['subscribe', 'publish']),
+                 'gc_at': rng.randint(1, 25)}]
     for i in range(nops):
         kind = rng.choices(kinds, wts)[0] if i >= 2 else 'worker'
         op = {'op': kind}
@@ -333,6 +367,10 @@ def gen_ops(rng: random.Random, nops: int) -> list[dict]:
                       via=rng.choice(['subscribe', 'publish']))
             if RETRIES and rng.random() < 0.4:
                 op['retry'] = True
+            if LIFETIMES and rng.random() < 0.3:
+                op['gc_at'] = rng.randint(1, 40)
+        elif kind == 'drop':
+            op.update(node=rng.randrange(64))
         elif kind == 'train':
             op.update(node=rng.randrange(64), tp=rng.randrange(64), tb=rng.randrange(2), lp=rng.randrange(64),
                       lb=rng.randrange(2))
@@ -359,6 +397,7 @@ class World:
         self.segments: list = []  # (segment, head idx, tail idx)
         self.kept: list = []  # exceptions kept alive on purpose (their tracebacks pin frames and locals)
         self.keep_next = False
+        self.refs: dict = {}  # index -> weak reference of a node the harness let go of (entry in `nodes` is None)
 
     def index(self, obj) -> typing.Optional[int]:
         for i, n in enumerate(self.nodes):
@@ -369,6 +408,8 @@ class World:
     def observe(self) -> dict:
         out = {}
         for i, node in enumerate(self.nodes):
+            if node is None:
+                continue
             outs = []
             for subs in node.output:
                 outs.append(sorted({(self.index(s.node), _portname(s.port)) for s in subs},
@@ -377,8 +418,9 @@ class World:
                 out[i] = {'kind': 'worker', 'in': sorted(_portname(p) for p in node.input), 'trained': node.trained,
                           'out': outs, 'group': sorted(self.index(m) for m in node.group if self.index(m) is not None)}
             else:
-                reg = sorted((self.index(p._node), p._index, int(a))  # pylint: disable=protected-access
-                             for p, a in node._input.items())  # pylint: disable=protected-access
+                reg = sorted(((self.index(p._node), p._index, int(a))  # pylint: disable=protected-access
+                              for p, a in node._input.items()),  # pylint: disable=protected-access
+                             key=lambda x: (-1 if x[0] is None else x[0], *x[1:]))
                 out[i] = {'kind': 'future', 'out': outs, 'reg': reg}
         return out
 
@@ -387,9 +429,13 @@ class World:
         feeds = collections.defaultdict(set)
         anyfeeds = collections.defaultdict(set)  # including placeholder publishers
         for i, node in enumerate(self.nodes):
+            if node is None:
+                continue
             for b, subs in enumerate(node.output):
                 for s in subs:
                     d = self.index(s.node)
+                    if d is None:
+                        continue  # a subscriber the harness let go of (alive only through this subscription)
                     anyfeeds[d].add(_portname(s.port))
                     if not isinstance(node, atomic.Worker):
                         continue
@@ -406,6 +452,7 @@ class World:
             if (ports & {T, L}) and (ports - {T, L}):
                 return f'node {d} is subscribed for both training and applying: {sorted(ports)}'
         groups = collections.defaultdict(list)
+        hidden = any(n is None for n in self.nodes)
         for i, node in enumerate(self.nodes):
             if isinstance(node, atomic.Worker):
                 edge_trained = bool(anyfeeds.get(i, set()) & {T, L})
@@ -413,7 +460,7 @@ class World:
                     groups[id(node._group)].append(i)  # pylint: disable=protected-access
                     if any(node.output):
                         return f'trained node {i} publishes'
-                if edge_trained != node.trained:
+                if edge_trained != node.trained and not hidden:  # (a publisher out of sight may feed the port)
                     return f'node {i}: trained={node.trained} but its training ports are fed by {sorted(anyfeeds.get(i, []))}'
         for members in groups.values():
             if len(members) > 1:
@@ -449,9 +496,47 @@ def run_case(ops: list[dict], known_sites: typing.Sequence[str] = ()) -> dict:
     known_hits = []
     violation = None
 
+    def sync_deaths() -> int:
+        """Nodes the harness let go of die when the collector (a simulator event) finds them unreachable."""
+        died = 0
+        for idx, ref in list(world.refs.items()):
+            if ref() is None:
+                model.kill(idx)
+                del world.refs[idx]
+                died += 1
+        stats['node-deaths'] += died
+        return died
+
+    def with_gc(fn, at: int):
+        """The cyclic collector may run at any allocation: here at the `at`-th line executed inside the graph layer."""
+        count = [0]
+
+        def local(frame, event, arg):  # pylint: disable=unused-argument
+            if event == 'line':
+                count[0] += 1
+                if count[0] == at:
+                    stats['fault:gc-inside-a-call'] += 1
+                    gc.collect()
+            return local
+
+        def tracer(frame, event, arg):  # pylint: disable=unused-argument
+            return local if frame.f_code.co_filename.endswith(GC_FILES) else None
+
+        def run():
+            sys.settrace(tracer)
+            try:
+                return fn()
+            finally:
+                sys.settrace(None)
+
+        return run
+
     def call(fn, where: str, expect_error: typing.Optional[str], step: int, mutate=None, unknown=False,
-             only_cycles: typing.Optional[bool] = None, retry: bool = False):
+             only_cycles: typing.Optional[bool] = None, retry: bool = False, gc_at: typing.Optional[int] = None):
         """Run one API call; compare verdict; on error require the graph to be exactly as it was."""
+        lenient = False
+        if gc_at and world.refs:
+            fn = with_gc(fn, gc_at)
         before = world.observe()
         err = None
         try:
@@ -461,6 +546,11 @@ def run_case(ops: list[dict], known_sites: typing.Sequence[str] = ()) -> dict:
             result = None
         except RecursionError:
             raise CaseViolation('harness-recursion', where, step) from None
+        if gc_at and sync_deaths():
+            # nodes died inside the call: whether that happened before or after the call's own checks decides its
+            # verdict - both are legal; what the graph looks like afterwards is compared with the model as ever
+            lenient = unknown = True
+            retry = False
         verdict = 'error' if err is not None else 'ok'
         stats[f'verdict:{verdict}'] += 1
         cyclic = isinstance(err, span.Traversal.Cyclic)
@@ -471,6 +561,12 @@ def run_case(ops: list[dict], known_sites: typing.Sequence[str] = ()) -> dict:
                 stats['fault:exception-kept-alive'] += 1
             reason = str(err)
             del err
+            if lenient:
+                if world.observe() != model.expected():
+                    raise CaseViolation('state-changed-after-error',
+                                        f'{where}: raised TopologyError({reason}) (nodes died inside the call) but the '
+                                        f'graph changed: {_diff(model.expected(), world.observe())}', step)
+                return None
             after = world.observe()
             if retry:
                 # a refused call repeated verbatim is refused again ("failed calls followed by retries") - also when
@@ -528,10 +624,23 @@ def run_case(ops: list[dict], known_sites: typing.Sequence[str] = ()) -> dict:
                 world.nodes.append(flow.Future(op['szin'], op['szout']))
                 model.nodes[nn] = {'kind': 'future', 'szin': op['szin'], 'szout': op['szout'], 'stateful': False,
                                    'group': None}
+            elif kind == 'drop':
+                if not nn:
+                    continue
+                n = op['node'] % nn
+                if world.nodes[n] is None or not isinstance(world.nodes[n], atomic.Worker):
+                    continue
+                # the harness lets go of the node: it lives on while others hold it and dies at a later collection
+                world.refs[n] = weakref.ref(world.nodes[n])
+                world.nodes[n] = None
+                model.nodes[n]['dropped'] = True
+                stats['fault:node-dropped'] += 1
             elif kind == 'fork':
                 if not nn:
                     continue
                 src = op['node'] % nn
+                if world.nodes[src] is None:
+                    continue
                 world.nodes.append(world.nodes[src].fork())
                 meta = dict(model.nodes[src])
                 if meta['kind'] == 'future':
@@ -541,6 +650,8 @@ def run_case(ops: list[dict], known_sites: typing.Sequence[str] = ()) -> dict:
                 if nn < 1:
                     continue
                 p, d = op['pub'] % nn, op['sub'] % nn
+                if world.nodes[p] is None or world.nodes[d] is None:
+                    continue
                 b = op['b'] % model.nodes[p]['szout'] if model.nodes[p]['szout'] else None
                 a = op['a'] % model.nodes[d]['szin'] if model.nodes[d]['szin'] else None
                 if b is None or a is None or model.future_cycle(p, d):
@@ -553,12 +664,15 @@ def run_case(ops: list[dict], known_sites: typing.Sequence[str] = ()) -> dict:
                     fn = lambda: world.nodes[d][a].subscribe(world.nodes[p][b])  # noqa: E731
                 else:
                     fn = lambda: world.nodes[p][b].publish(world.nodes[d], port.Apply(a))  # noqa: E731
-                call(fn, where, reason, step, mutate=lambda: model.add_edge(p, b, d, q), retry=bool(op.get('retry')))
+                call(fn, where, reason, step, mutate=lambda: model.add_edge(p, b, d, q), retry=bool(op.get('retry')),
+                     gc_at=op.get('gc_at'))
                 stats['op:connect'] += 1
             elif kind == 'train':
                 if nn < 1:
                     continue
                 w, tp, lp = op['node'] % nn, op['tp'] % nn, op['lp'] % nn
+                if world.nodes[w] is None or world.nodes[tp] is None or world.nodes[lp] is None:
+                    continue
                 if model.is_future(w) or not model.nodes[tp]['szout'] or not model.nodes[lp]['szout']:
                     continue
                 tb, lb = op['tb'] % model.nodes[tp]['szout'], op['lb'] % model.nodes[lp]['szout']
@@ -604,6 +718,8 @@ def run_case(ops: list[dict], known_sites: typing.Sequence[str] = ()) -> dict:
                     continue
                 head = op['head'] % nn
                 tail = None if op['tail'] is None else op['tail'] % nn
+                if world.nodes[head] is None or (tail is not None and world.nodes[tail] is None) or world.refs:
+                    continue  # (tracing is not judged while nodes out of the harness' sight are around)
                 status, info = model.trace(head, tail)
                 where = f'step {step}: Segment(node{head}, {None if tail is None else f"node{tail}"})'
                 seg = call(lambda: flow.Segment(world.nodes[head], None if tail is None else world.nodes[tail]), where,
@@ -620,7 +736,7 @@ def run_case(ops: list[dict], known_sites: typing.Sequence[str] = ()) -> dict:
                 if not world.segments:
                     continue
                 seg, head, tail = world.segments[op['seg'] % len(world.segments)]
-                if len(world.nodes) + 4 > MAXNODES + 6:
+                if len(world.nodes) + 4 > MAXNODES + 6 or world.refs or any(n is None for n in world.nodes):
                     continue
                 before = world.observe()
                 sizes = [len(n.group) if isinstance(n, atomic.Worker) else None for n in world.nodes]
@@ -655,6 +771,8 @@ def run_case(ops: list[dict], known_sites: typing.Sequence[str] = ()) -> dict:
                 if not world.segments:
                     continue
                 seg, head, tail = world.segments[op['seg'] % len(world.segments)]
+                if world.refs or any(n is None for n in world.nodes):
+                    continue
                 status, info = model.trace(tail, None)
                 visited_future = _visits_future(model, head, info if status == 'ok' else None)
                 expect = None
@@ -678,6 +796,7 @@ def run_case(ops: list[dict], known_sites: typing.Sequence[str] = ()) -> dict:
                 gc.collect()
                 stats['fault:gc-collect'] += 1
             # after every step: real == model, invariants hold
+            sync_deaths()
             obs = world.observe()
             exp = model.expected()
             if obs != exp:
@@ -691,6 +810,7 @@ def run_case(ops: list[dict], known_sites: typing.Sequence[str] = ()) -> dict:
         world.kept.clear()
         world.segments.clear()
         world.nodes.clear()
+        world.refs.clear()
         gc.collect()
         gc.enable()
     return {'violation': violation, 'stats': dict(stats), 'executed': len(executed), 'known_hits': known_hits,
@@ -927,6 +1047,9 @@ def main(argv: list[str]) -> int:
         'cases_per_hour': round(cases / wall * 3600) if wall else 0,
         'fault_kinds_fired': {k[6:]: v for k, v in stats.items() if k.startswith('fault:')},
         'ops_executed': {k[3:]: v for k, v in stats.items() if k.startswith('op:')},
+        'reach_probes': {'nodes_that_died_at_a_collection': stats.get('node-deaths', 0),
+                         'refused_calls_retried': stats.get('retries', 0),
+                         'copies_checked_for_structure': stats.get('copy-structure-checked', 0)},
         'verdicts': {k[8:]: v for k, v in stats.items() if k.startswith('verdict:')},
         'violating_cases_by_signature': {k: len(v) for k, v in groups.items()},
         'real_components': ['flow._graph.port/atomic/span', 'flow._suite.clean/assembly (Trunk, Composition, Validator)'],
